@@ -85,6 +85,32 @@ func scenarioC08(rc *RunCtx) *Violation {
 		p.AddCSSSite(g)
 		rc.Probe("profile_css_site")
 	}
+	// profile: local-css files with the same name and the same class names in several
+	// directories, imported by different entry points (their generated global names collide)
+	if g.n(6) == 0 {
+		p.LocalCSS = map[int]bool{}
+		dirs := map[string]bool{}
+		for _, m := range p.Mods {
+			if len(p.LocalCSS) >= 4 || m.Deleted || !isJS(m.Kind) {
+				continue
+			}
+			if d := dirOf(m.Path); !dirs[d] || g.n(3) == 0 {
+				dirs[d] = true
+				p.LocalCSS[m.ID] = true
+				if !entryOf(p, m.ID) {
+					p.Entries = append(p.Entries, m.ID)
+				}
+			}
+		}
+		o.Bundle = true
+		if g.n(3) != 0 {
+			o.Splitting = false
+		}
+		if g.n(3) != 0 {
+			o.MinifyIDs = false
+		}
+		rc.Probe("profile_local_css_twins")
+	}
 	kind := perturb(g, p, o)
 	// a second, unrelated project for sibling builds in the same process
 	p2 := GenProject(g, "/q")
